@@ -11,6 +11,7 @@ import (
 	"net/http/httptest"
 	"strings"
 	"sync"
+	"time"
 
 	ethAbi "github.com/alephium/wormhole-fork/node/pkg/ethereum/abi"
 	"github.com/ethereum/go-ethereum/accounts/abi"
@@ -88,6 +89,33 @@ type Sim struct {
 	rpcSrv        *rpc.Server
 	GuardianKeys  []common.Address
 	FinalizedMode bool // the watcher under test polls the finalized head (set by Start)
+	slowMu        sync.Mutex
+	slow          map[string][]time.Duration
+}
+
+// SlowNext makes the next n calls of a JSON-RPC method arrive late (the handler sleeps before it looks at the
+// simulator's state: a slow path, not a stale node).
+func (s *Sim) SlowNext(method string, n int, d time.Duration) {
+	s.slowMu.Lock()
+	if s.slow == nil {
+		s.slow = map[string][]time.Duration{}
+	}
+	for i := 0; i < n; i++ {
+		s.slow[method] = append(s.slow[method], d)
+	}
+	s.slowMu.Unlock()
+}
+
+func (s *Sim) pre(method string) {
+	s.slowMu.Lock()
+	var d time.Duration
+	if q := s.slow[method]; len(q) > 0 {
+		d, s.slow[method] = q[0], q[1:]
+	}
+	s.slowMu.Unlock()
+	if d > 0 {
+		time.Sleep(d)
+	}
 }
 
 type logSub struct {
@@ -322,6 +350,7 @@ func (s *Sim) headerJSON(b *Block) map[string]interface{} {
 
 func (a *ethAPI) GetBlockByNumber(ctx context.Context, tag string, full bool) (map[string]interface{}, error) {
 	s := a.s
+	s.pre("getBlockByNumber")
 	s.mu.Lock()
 	defer s.mu.Unlock()
 	if err := s.enter("getBlockByNumber", tag); err != nil {
@@ -363,6 +392,7 @@ func (a *ethAPI) GetBlockByNumber(ctx context.Context, tag string, full bool) (m
 // blocks between the finalized head and this tip; elsewhere it is the served head itself.
 func (a *ethAPI) BlockNumber(ctx context.Context) (hexutil.Uint64, error) {
 	s := a.s
+	s.pre("blockNumber")
 	s.mu.Lock()
 	defer s.mu.Unlock()
 	if err := s.enter("blockNumber", ""); err != nil {
@@ -382,6 +412,7 @@ func (a *ethAPI) BlockNumber(ctx context.Context) (hexutil.Uint64, error) {
 
 func (a *ethAPI) GetBlockByHash(ctx context.Context, hash common.Hash, full bool) (map[string]interface{}, error) {
 	s := a.s
+	s.pre("getBlockByHash")
 	s.mu.Lock()
 	defer s.mu.Unlock()
 	if err := s.enter("getBlockByHash", hash.Hex()[:10]); err != nil {
@@ -396,6 +427,7 @@ func (a *ethAPI) GetBlockByHash(ctx context.Context, hash common.Hash, full bool
 
 func (a *ethAPI) GetTransactionReceipt(ctx context.Context, hash common.Hash) (map[string]interface{}, error) {
 	s := a.s
+	s.pre("getTransactionReceipt")
 	s.mu.Lock()
 	defer s.mu.Unlock()
 	if err := s.enter("getTransactionReceipt", hash.Hex()[:10]); err != nil {
